@@ -11,7 +11,7 @@ CONSTANTS RTDst           \* where the slug is unpacked (an empty directory of t
 U(f) == INSTANCE UnpackOps WITH
           Alphabet <- {}, MaxLen <- 0, Emit <- FALSE, FS0 <- f, Dst <- RTDst, SP <- {}, Allow <- {},
           DEV_StrPrefix <- FALSE, DEV_DirNotCreated <- FALSE, DEV_CreateThroughLink <- FALSE,
-          DEV_AbsInside <- TRUE, DEV_DirThroughLink <- FALSE, DEV_WalkRawName <- FALSE, DEV_LinkRawName <- FALSE
+          DEV_AbsInside <- TRUE, DEV_DirThroughLink <- FALSE, DEV_WalkRawName <- FALSE, DEV_LinkRawName <- FALSE, DEV_LinkOneSlash <- FALSE
 
 \* L1 prediction of unpacking the slug out into RTDst of filesystem f
 UnpackOf(f, out) == U(f)!Run(f, <<>>, out)
